@@ -269,6 +269,12 @@ def run(chk):
     obs_events(chk)
     from .. import session
     session.run_for(chk, 'C13')      # Session.tla: results do not depend on earlier calls
+    from .. import quiet
+    quiet.run_for(chk, 'C13')      # Quiet.tla: asking for diagnostics is not an argument
+    from .. import units
+    units.run_for(chk, 'C13')      # Units.tla: the unit the data are expressed in is not part of the data
+    from .. import carrier
+    carrier.run_for(chk, 'C13')      # Carrier.tla: a sample denotes its value whatever container carries it
 
 
 def replay_case(chk, sig, case):
